@@ -701,6 +701,13 @@ func (a *Application) transformStreamAndWaitForProxy(
 	// transform stream (blocks until done)
 	transformErr := trans.TransformStreamingResponse(ctx, pipeReader, w, r)
 
+	// If the translator gave up before draining the stream (e.g. a line longer than its buffer),
+	// the proxy goroutine is still blocked writing into the pipe. Close the read side so that
+	// write fails and the goroutine can finish; otherwise the wait below never returns.
+	if transformErr != nil {
+		pipeReader.CloseWithError(transformErr)
+	}
+
 	// Wait for proxy to complete
 	proxyErr := <-proxyErrChan
 
